@@ -369,6 +369,11 @@ func itemIndependent(c *Ctx, rule string, anchors [][3]string) {
 
 // carriedDiag prints every loop-carried scalar of the program (calibration only).
 func carriedDiag(p *Prog) {
+	ma, sized := makeThenAppend(p, p.live())
+	fmt.Printf("make-then-append: %d sized slices\n", sized)
+	for _, f := range ma {
+		fmt.Printf("make-append %s %s at %s\n", f.fn.Key(), f.v.Name(), p.Pos(f.app))
+	}
 	for _, fn := range p.live() {
 		found, _, _ := loopCarried(p, fn)
 		for _, f := range found {
